@@ -58,12 +58,7 @@ impl Srcloc {
 //@ end
 //@ extract fn ext from src/compiler/srcloc.rs in impl Srcloc
 //@ replace R7 @<other.file == self.file>@ => @<verif_rc_string_eq(&other.file, &self.file)>@
-//@ sig r
-    requires self.col < usize::MAX, other.col < usize::MAX
-    ensures
-        other.file != self.file ==> r == *self,
-        other.file == self.file ==> sstart(r) == pmin(sstart(*self), sstart(*other))
-            && ple(send(r), pmax(send(*self), send(*other))) && r.file == self.file,
+//@ sigfile r contracts/srcloc_ext.sig
 //@ end
 }
 
